@@ -249,7 +249,7 @@ class SymOps:
         f = psum_fn(arr)
         j = self._fresh("ps")
         sel = z3.Select(arr, j)
-        return z3.ForAll([j], f(j + 1) == f(j) + (z3.ToReal(sel) if z3.is_int(sel) else sel), patterns=[f(j + 1)])
+        return z3.ForAll([j], f(j + 1) == f(j) + (z3.ToReal(sel) if z3.is_int(sel) else sel), patterns=[f(j + 1), sel])
 
     def getitem(self, x, key):
         from .engine import V
